@@ -568,7 +568,7 @@ pub fn run(ctx: &Ctx) -> Report {
     }
     Report {
         tally,
-        rule: "DHW scenarios composed from the canonical mixes (direct electric, heat pump - optionally also heating with split auxiliaries -, solar thermal + gas boiler, RED1 / RED2 with user factors, biomass / densified biomass with or without declared output, auxiliaries on one or two DHW systems, PV shared with other services, gas cogeneration present, load matching), DEMANDA ACS set to the sum of the demand each mix supplies; the reported fraction is compared with the closed form computed from the generator's parameters, must lie in [0, 1], must not change under added non-EPB consumption, other services' non-electric consumption, another k_exp, another area, scaling by 2^j, and must be an error without demand, with zero demand and for biomass mixed with a non-nearby carrier without output; non-trivial = at least three mixes combined; distinct = distinct scenario".into(),
+        rule: "DHW scenarios composed from the canonical mixes (direct electric, heat pump - optionally also heating with split auxiliaries -, solar thermal + gas boiler, RED1 / RED2 with user factors, biomass / densified biomass with or without declared output, auxiliaries on one or two DHW systems, PV shared with other services, gas cogeneration present, load matching), DEMANDA ACS set to the sum of the demand each mix supplies; the reported fraction is compared with the closed form computed from the generator's parameters, must lie in [0, 1], must not change under added non-EPB consumption, other services' non-electric consumption, another k_exp, another area, scaling by 2^j, and must be an error without demand, with zero demand and for biomass mixed with a non-nearby carrier without output; non-trivial = at least three mixes combined; distinct = distinct scenario; second session: low-SCOP tag on the DHW ambient-heat line (closed form without that heat), on declared ambient production and on other services' / non-EPB ambient-heat lines (no effect), declared ambient production, demand written with twice as many values as the components, direct electric DHW of 0.02 kWh .. 0.5 % of large auxiliaries; comparisons carry the fraction's rounding band 3e-6 x DHW-related energy / demand".into(),
         assumptions: vec!["closed form tolerance 1e-4 absolute (f32 library, fraction in [0, 1])".into(), "cogeneration fed by nearby fuels is not among the canonical mixes of the property and is not generated".into()],
         quotas,
     }
